@@ -277,6 +277,50 @@ def sc_newcomers_while_stopping(w, n, kind):
     w.advance(8)
 
 
+def sc_burst_then_node_close(w, n, kind):
+    """More wake-ups than one read of the interrupt pipe holds are pending (a burst of outgoing messages on one
+    connection while the I/O thread does not run), then the node itself closes another connection."""
+    from diameter.message.commands import DeviceWatchdogAnswer
+    a = w.handshake_in("peer1.example", auth=[4], hbh=0x100)
+    nca = w.node_conn_for(a)
+    for i in range(n):
+        b = w.handshake_in("peer2.example", auth=[4], ip="10.1.1.2", hbh=0x200 + i)
+        if b is None or nca is None:
+            break
+        ncb = w.node_conn_for(b)
+
+        def burst():
+            size = 0
+            for j in range(200):
+                m = DeviceWatchdogAnswer()
+                m.header.hop_by_hop_identifier = m.header.end_to_end_identifier = 0x9000 + j
+                m.result_code = 2001
+                m.origin_host = W.NODE_HOST.encode()
+                m.origin_realm = W.NODE_REALM.encode()
+                size += len(m.as_bytes())
+                w.node.send_message(nca, m)
+            w.k.block(lambda: len(nca.write_buffer) >= size or nca.state == 0x1c, timeout=5)   # the writer has queued them all
+            if ncb is not None:
+                ncb.close()
+
+        # the harness owns the schedule here: the burst and the connection's writer run before the I/O thread does
+        def prefer(cands):
+            for key in ("burst", "work_write_queue"):
+                for t in cands:
+                    if key in t.name:
+                        return t
+            return cands[0]
+        old = w.k.chooser
+        w.k.chooser = prefer
+        try:
+            w.app_call(burst, name="burst")
+            w.run()
+        finally:
+            w.k.chooser = old
+        w.advance(1)
+    w.peer_close(a)
+
+
 SCENARIOS = {
     "inbound-request-answer": (sc_inbound, {}),
     "inbound-T-flag-repeats": (sc_inbound_T, {}),
@@ -297,6 +341,7 @@ SCENARIOS = {
     "dial-cea-timeout": (sc_dial_cea_timeout, {"dial": True}),
     "dial-established-closed": (sc_dial_established_closed, {"dial": True}),
     "newcomers-while-stopping": (sc_newcomers_while_stopping, {}),
+    "burst-then-node-close": (sc_burst_then_node_close, {}),
 }
 FAILING = {"rejected-requests", "outbound-request-timeout", "conn-reset", "unknown-peer", "accept-no-cer",
            "cer-no-common-app", "dial-refused-sync", "dial-failed-async", "dial-cea-rejected", "dial-cea-timeout",
